@@ -74,7 +74,7 @@ def _shard(shard, nshards, payload):
                     try:
                         expected.append(('ok', bodies[i]()))
                     except Exception as e:
-                        expected.append(('exc', type(e).__name__, str(e)[:200]))
+                        expected.append(sched.describe_exception(e))
                 seen = set()
 
                 def check(x, expected=expected, scname=scname, gen=gen, label=label, spec=spec, seen=seen, fresh=fresh):
@@ -155,7 +155,7 @@ def replay(case):
         try:
             expected.append(('ok', bodies[i]()))
         except Exception as e:
-            expected.append(('exc', type(e).__name__, str(e)[:200]))
+            expected.append(sched.describe_exception(e))
     runs = []
     for _ in range(2):
         bodies, dirs = fresh()
